@@ -4,7 +4,7 @@
    configuration, by construction); `direction` takes `likely : bool` and is proved below to differ
    between the two values only in the documented refinement.  That the SOURCES have the same shape is
    the regenerated obligation C20_sites_additive. *)
-From UL Require Import Bytes Subtags LangId Likely Inst Sites.
+From UL Require Import Bytes Subtags LangId Likely Inst CfgSitesProofs.
 
 (* every cfg(feature ..) site in the current sources guards a whole item, except the one documented
    statement inside character_direction; cargo features only switch on dependencies / their features *)
